@@ -594,3 +594,51 @@ HEAP_HEADERS["C08L"] = ("From Coq Require Import String.\nFrom CppUVerif Require
                         "LFailure (cls : string) | LReport | LAbort | LCopyOutputs (e : Z).\n"
                         "Section ActualCall.\nVariable value_name : Z -> Z.\n")
 HEAP_FOOTERS["C08L"] = "\nEnd ActualCall.\n"
+
+# ------------------------------------------------------------------ C08: the expectation object (MockCheckedExpectedCall): the questions the list asks and the tells it receives
+MEC = "src/CppUTestExt/MockExpectedCall.cpp"
+MNV = "src/CppUTestExt/MockNamedValue.cpp"
+_E = "src_exp_"
+_C08EM = ["getName", "item", "hasInputParameterWithName", "hasOutputParameterWithName", "areParametersMatchingActualCall", "isFulfilled",
+          "canMatchActualCalls", "isMatchingActualCall", "isMatchingActualCallAndFinalized", "finalizeActualCallMatch", "wasPassedToObject",
+          "resetActualCallMatchingState", "callWasMade", "inputParameterWasPassed", "outputParameterWasPassed", "hasInputParameter",
+          "hasOutputParameter", "relatesTo", "relatesToObject", "isOutOfOrder", "getActualCallsFulfilled"]
+_C08E = {"MockCheckedExpectedCall::" + n: {"fn": _E + n, "method": True} for n in _C08EM}
+_C08E.update({
+    "MockExpectedFunctionParameter::setMatchesActualCall": {"fn": "src_eparam_setMatchesActualCall", "method": True, "writes": True},
+    "MockCheckedExpectedCall::resetActualCallMatchingState": {"fn": _E + "resetActualCallMatchingState", "method": True, "writes": True},
+    "MockExpectedFunctionParameter::isMatchingActualCall": {"fn": "src_eparam_isMatchingActualCall", "method": True},
+    "MockNamedValueListNode::next": {"fn": "src_pnode_next", "method": True}, "MockNamedValueListNode::item": {"fn": "src_pnode_item", "method": True},
+    "MockNamedValueListNode::getName": {"fn": "src_pnode_getName", "method": True},
+    "MockNamedValueList::begin": {"fn": "src_plist_begin", "method": True},
+    "MockNamedValueList::getValueByName": {"fn": "src_plist_getValueByName", "method": True},
+    "MockNamedValue::getName": {"fun": "param_name", "recv": True},
+    "MockNamedValue::equals": {"fun": "param_equals", "recv": True, "args": [0]},
+    "MockNamedValue::compatibleForCopying": {"fun": "param_compatible", "recv": True, "args": [0]},
+    "operator==": "c_eq {0} {1}"})
+HEAP_RECORDS["C08E"] = [["MockExpectedFunctionParameter", MEC, "own"], ["MockNamedValueListNode", MNV], ["MockNamedValueList", MNV, "own"],
+                        ["MockCheckedExpectedCall", MEC, "own"]]
+_PE = dict(calls=_C08E, ghosts=[], opaque_classes=["SimpleString"], record_aliases={"MockNamedValue": "MockExpectedFunctionParameter"},
+           enum_values={"NO_EXPECTED_CALL_ORDER": 0})
+HEAP_GROUPS["C08E"] = (
+    [dict(file=MEC, name="MockCheckedExpectedCall::MockExpectedFunctionParameter::" + n, coq="src_eparam_" + n,
+          **{"class": "MockExpectedFunctionParameter"}, **_PE) for n in ["setMatchesActualCall", "isMatchingActualCall"]] +
+    [dict(file=MNV, name="MockNamedValueListNode::" + n, coq="src_pnode_" + n, **{"class": "MockNamedValueListNode"}, **_PE)
+     for n in ["next", "item", "getName"]] +
+    [dict(file=MNV, name="MockNamedValueList::" + n, coq="src_plist_" + n, **{"class": "MockNamedValueList"}, **_PE)
+     for n in ["begin", "getValueByName"]] +
+    [dict(file=MEC, name="MockCheckedExpectedCall::" + n, coq=_E + n, **{"class": "MockCheckedExpectedCall"}, **_PE) for n in _C08EM])
+HEAP_HEADERS["C08E"] = ("From Coq Require Import String.\nFrom CppUVerif Require Import lib.CSem lib.CMem lib.CHeap.\nLocal Open Scope Z_scope.\n"
+                        "(* translated by tools/cxx2heap.py: the expectation object of the mocking engine, MockCheckedExpectedCall -- every question the "
+                        "expectation list asks it (relatesTo, relatesToObject, isFulfilled, canMatchActualCalls, isMatchingActualCall(AndFinalized), "
+                        "areParametersMatchingActualCall, has{Input,Output}Parameter(WithName), isOutOfOrder, getActualCallsFulfilled) and everything it "
+                        "is told (callWasMade, finalizeActualCallMatch, wasPassedToObject, resetActualCallMatchingState, {input,output}ParameterWasPassed) "
+                        "-- with the parameter lists it walks (MockNamedValueList / MockNamedValueListNode). Every object in an expectation's parameter "
+                        "lists is created as a MockExpectedFunctionParameter (the with...Parameter members of the same file): a MockNamedValue object is "
+                        "here a 1-cell block holding that class's only own member, matchesActualCall_; its name, the comparison with an actual "
+                        "parameter and the compatibility for copying are the Section variables param_name / param_equals / param_compatible (pure "
+                        "functions of the objects: names and values are not changed by the translated functions); a function name is an integer that "
+                        "identifies its text *)\n"
+                        "Section Expectation.\nVariable param_name : hptr -> Z.\nVariable param_equals : hptr -> hptr -> Z.\n"
+                        "Variable param_compatible : hptr -> hptr -> Z.\n")
+HEAP_FOOTERS["C08E"] = "\nEnd Expectation.\n"
